@@ -28,7 +28,10 @@ func (node *WifeNode) Individual() *IndividualNode {
 		return nil
 	}
 
-	return n.(*IndividualNode)
+	// The pointer may belong to a record that is not an individual.
+	individual, _ := n.(*IndividualNode)
+
+	return individual
 }
 
 func (node *WifeNode) Similarity(other *WifeNode, options SimilarityOptions) float64 {
